@@ -24,6 +24,8 @@ CHECKS = {
          "Every model-ignored statement of pinned templates (14 statement kinds x directive forms x tails x neighbours x depth), of the repository's ignore inputs and of generated programs with inserted directives must reappear byte for byte, and unrelated statements must be formatted as without the directives."),
  "C09": ("exploration", "7 C09", "segment/region matching of range output against input (outside the range) and against the whole-file output (inside), by pre-order statement inventory",
          "For statement-aligned, mid-token, nested, open-ended, empty and out-of-bounds ranges on the corpus, on templates (every statement pair) and on generated programs: text outside the affected statements is compared byte for byte, affected regions are compared with the whole-file run."),
+ "C11": ("exploration", "7 C11", "per-token / per-call-site / per-function-header rule monitor over the re-lexed and re-parsed output for all 80 combinations of the three options",
+         "Every quoted string, call site (with its suffix context) and function header of every output is judged against the rule of the configured value on the corpus, 12 templates x 80 combinations x 3 widths, generated programs and mutants."),
  "C10": ("exploration", "7 C10", "byte-level line-ending / indentation / end-of-file monitor on outputs, masked by own-lexer string spans",
          "Every output byte outside string contents is checked against the configured line ending and indent settings for LF/CRLF/mixed inputs."),
 }
@@ -32,6 +34,12 @@ CLI = {
          "Each execution of `stylua --check` on pinned class combinations (9 outcome classes x 4 output formats x argv orders) and seeded random trees is judged by a syscall log, a full snapshot comparison, a three-valued exit-status model built from the library reference and the set of files for which a diff was printed."),
  "C14": ("fault_enumeration", "7 C14", "fault enumeration over file outcome classes (unparseable, invalid UTF-8, verify-fail, injected crash, strace-injected EACCES on read and on write) in every order; snapshots + strace write-set + library reference",
          "Every sequence of outcome classes up to length 2 (3-4 thorough) on argv and inside directories is executed in write mode; failing files must keep their bytes, all others must equal the library output, already formatted files must not be opened for writing, exit status 2 iff a failure."),
+ "C15": ("exploration", "7 C15", "documentation-derived configuration-search model vs the file contents the real binary produces; each config file carries a distinct indent_width so the applied configuration is readable off the output; library reference under the model's Config",
+         "Every placement subset of stylua.toml/.stylua.toml/.editorconfig below, at and above the working directory, XDG/HOME locations, --config-path spellings, override subsets, target shapes (files, directories, stdin, absolute, `..`) in a pinned grid plus seeded random trees is executed and compared byte for byte with the library's output under the configuration the documented search finds."),
+ "C16": ("exploration", "7 C16", "documentation-derived selection model (gitignore subset, globs, hidden, explicit paths) vs observed processing: strace read-opens per canonical path (exactly once) and content changes; undocumented combinations generated but not judged",
+         "A fixed tree x 27 argument lists x ignore/hidden/glob option combinations (pinned) and seeded random trees and ignore files; a file is judged only when every reading of the documentation agrees."),
+ "C20": ("exploration", "7 C20", "exhaustive option x value x carrier enumeration (stylua.toml, .stylua.toml, flag in three casings, .editorconfig spellings) compared pairwise and with the library reference; malformed-configuration enumeration judged by exit status, snapshot and strace",
+         "All 10 options x 48 documented values x every carrier are enumerated completely (423 executions, sensitivity of the probe file measured per option), 94 malformed configuration texts x 6 target shapes must exit 2 without touching a file; seeded multi-option configurations add reach."),
 }
 NOT_YET = {}
 checks = []
